@@ -63,9 +63,21 @@ end flatten
 
 namespace unflatten
 
-def model (s : Shape) (dim : Int) (sizes : List Int) : Option Shape :=
+/-- fix 6c44051: with static sizes a `-1` is resolved at trace time from `self.shape[dim]` (Python indexing)
+when the product of the other entries is positive. -/
+def resolveNeg1 (s : Shape) (dim : Int) (sizes : List Int) : List Int :=
+  if sizes.contains (-1) then
+    let known := (sizes.filter (· != -1)).foldl (· * ·) 1
+    if known > 0 then
+      let d : Int := (s.getD dim.toNat 0 : Nat)
+      sizes.map (fun z => if z == -1 then d / known else z)
+    else sizes
+  else sizes
+
+def model (s : Shape) (dim : Int) (sizes0 : List Int) : Option Shape :=
   let r : Int := s.length
   let dim := if dim < 0 then r + dim else dim
+  let sizes := resolveNeg1 s dim sizes0
   let head := (sliceShape s 0 dim).map (Int.ofNat ·)
   let tail := (sliceShape s (dim + 1) INT64_MAX).map (Int.ofNat ·)
   let tgt := if dim = 0 then sizes ++ tail
@@ -73,9 +85,11 @@ def model (s : Shape) (dim : Int) (sizes : List Int) : Option Shape :=
              else head ++ sizes ++ tail
   reshape true s tgt
 
-def term (r : Nat) (dim : Int) (sizes : List Int) : String :=
+def term (s : Shape) (dim : Int) (sizes0 : List Int) : String :=
+  let r := s.length
   let rk : Int := r
   let dim := if dim < 0 then rk + dim else dim
+  let sizes := resolveNeg1 s dim sizes0
   let shp := tOp "Shape" ["x0"] [("start", "0")]
   let one (i : Int) := tOp "Reshape" [tI i, "[1]"] [("allowzero", "0")]
   let head := tOp "Slice" [shp, "[0]", one dim]
@@ -123,10 +137,11 @@ end view
 
 namespace reshape_
 
-def model (s : Shape) (size : List Int) : Option Shape := reshape false s size
+/-- fix 5bf0068: `Reshape(allowzero=1)`, as `aten_view`. -/
+def model (s : Shape) (size : List Int) : Option Shape := reshape true s size
 
 def term (size : List Int) : String :=
-  tOp "Reshape" ["x0", tMergeDims size] [("allowzero", "0")]
+  tOp "Reshape" ["x0", tMergeDims size] [("allowzero", "1")]
 
 def spec (s : Shape) (size : List Int) : Option Shape := unflatten.inferSize (numel s) size
 
@@ -271,10 +286,10 @@ end expand
 
 namespace broadcast_to
 
-def model (s : Shape) (size : List Int) : Option Shape :=
-  if size.any (· < 0) then none else expandOp s (size.map Int.toNat)
+/-- fix fe4fd65: `-1 ↦ 1` as in `aten_expand`. -/
+def model (s : Shape) (size : List Int) : Option Shape := expand.model s size
 
-def term (size : List Int) : String := tOp "Expand" ["x0", tMergeDims size]
+def term (size : List Int) : String := expand.term size
 
 def spec (s : Shape) (size : List Int) : Option Shape := expand.spec s size
 
